@@ -20,6 +20,8 @@ VALUE_POOL = {
     "u": uuid.UUID(int=7), "b": b"\x00\x01", "e": "", "z": 0, "nest": {"k": [(1, 2), {"x": None}]},
     # values that compare equal in Python but are different values of the grammar (True == 1, False == 0 == 0.0)
     "i1": 1, "fl": False, "f0": 0.0,
+    # an aware datetime with a non-UTC offset: equal to its UTC rendering, yet a different observation (hour, offset, text)
+    "dto": dt.datetime(2024, 3, 10, 1, 30, tzinfo=dt.timezone(dt.timedelta(hours=-5))),
 }
 TOKENS = sorted(VALUE_POOL)
 
@@ -168,7 +170,7 @@ class Interp:
                             return RetryDecision.no_retry()
                         ds = retry["delays"]
                         d = ds[min(made - 1, len(ds) - 1)] if ds else 0
-                        return RetryDecision.retry(Duration(seconds=d))
+                        return RetryDecision.retry(Duration(seconds=0.25 if d == 0 and made % 2 else d))
 
                     serdes = None
                     if st.get("fragile"):
@@ -208,7 +210,7 @@ class Interp:
                     class ResultOnly(JsonSerDes):
                         def serialize(self, value, c):
                             raise AssertionError("the result serdes was asked to write a payload")
-                    v = ctx.invoke("target-fn", VALUE_POOL.get(st["payload"], st["payload"]), name=name,
+                    v = ctx.invoke("target-fn", {1, 2} if st["payload"] == "!set" else VALUE_POOL.get(st["payload"], st["payload"]), name=name,
                                    config=InvokeConfig(serdes_payload=PayloadOnly(), serdes_result=ResultOnly()))
                     tok = "" if v == "" and isinstance(v, str) else token_of(v)
                 elif op == "wfc":
@@ -229,7 +231,8 @@ class Interp:
                         d = decide_t[min(attempt - 1, len(decide_t) - 1)] if decide_t else None
                         if d is None:
                             return WaitForConditionDecision.stop_polling()
-                        return WaitForConditionDecision.continue_waiting(Duration(seconds=d))
+                        # a delay below one second is clamped to 1 s whatever its type: every other zero is a float
+                        return WaitForConditionDecision.continue_waiting(Duration(seconds=0.5 if d == 0 and attempt % 2 else d))
 
                     v = ctx.wait_for_condition(check, WaitForConditionConfig(wait_strategy=decide, initial_state=VALUE_POOL[st["init"]]), name=name)
                     tok = token_of(v)
@@ -266,6 +269,8 @@ def run_invocation(script, backend: FakeBackend, plan, seed, schedule=None, limi
         # every source line of the id-deriving code is a scheduling point
         sim.line_points = lambda code: code.co_filename.endswith(("aws_durable_execution_sdk_python/context.py",
                                                                   "aws_durable_execution_sdk_python/threading.py"))
+    if plan.get("clock0") is not None:
+        sim.clock = sim.last_progress_clock = plan["clock0"]      # time goes on between invocations
     res = {"trace": [], "logs": []}
     backend.plan = plan
     backend.ticks = 0
@@ -349,5 +354,6 @@ def run_invocation(script, backend: FakeBackend, plan, seed, schedule=None, limi
     res["decisions"] = list(sim.decisions)
     res["leftover_threads"] = [t.name for t in sim.threads if not t.done and t.name.startswith("dex-handler")]
     res["keep"] = backend.asyncs_since_sync
+    res["clock"] = sim.clock
     res["crashed"] = backend.crashed
     return res
